@@ -8,4 +8,5 @@ python3 tools/mkdrivers.py
 (cd lean && lake build)
 cp /repo/go.sum harness/go.sum
 (cd harness && go build -tags verif -o ../work/gpyh .)
+(cd extract/fingerprint && go build -o ../../work/fingerprint .)
 echo setup ok
